@@ -24,6 +24,7 @@ def meta(tier, seed):
                    "test_size": [0.34, 0.5] if tier == "quick" else [0.25, 0.34, 0.5], "is_ordered": [True, False],
                    "batch_size": "0..|test|", "is_quick": [False, True], "seeds": 1 if tier == "quick" else 2,
                    "pairs": "Radius/KNearest x {euclidean, chebyshev, cityblock} ordered pairs with different metrics",
+                   "n_jobs": "1; additionally 2 (joblib model) for seven combinations",
                    "earlier_life": "additionally, for every Radius/KNearest/LSH combination and four others, bandits that "
                                    "were fit on four rows and queried three times before the Simulator is built"},
         "assumptions": ["scikit-learn train_test_split is trusted to be a function of (n, test_size, random_state)"],
@@ -39,6 +40,10 @@ def shards(tier, seed):
             if tier == "quick" and ln not in ("eg5", "ucb", "ts", "lts1"):
                 continue
             out.append({"kind": "single", "used": True, "ln": ln, "nn": nn, "tier": tier, "seed": 61 + seed})
+    # bandits that partition their predictions over two jobs (joblib model, default schedule): test parts and batches
+    # whose size is not a multiple of the number of jobs included
+    for ln, nn in (("eg0", "rad"), ("ucb", "knn"), ("eg5", "rad"), ("ts", "knn"), ("ucb", "lsh"), ("eg0", "clu"), ("ucb", "tree")):
+        out.append({"kind": "single", "n_jobs": 2, "ln": ln, "nn": nn, "tier": tier, "seed": 61 + seed})
     for metric in ("seuclidean", "mahalanobis"):      # distances that depend on which rows are passed to scipy together
         out.append({"kind": "metric", "np": "rad", "metric": metric, "tier": tier, "seed": 61 + seed})
         out.append({"kind": "metric", "np": "knn", "metric": metric, "tier": tier, "seed": 61 + seed})
@@ -100,10 +105,18 @@ def judge(cfgs, lns, dec, rew, X, params, acc=None, used=False):
 
 
 def run_shard(shard):
+    if shard.get("n_jobs", 1) > 1:
+        from .. import sched
+        with sched.model():
+            return _run_shard(shard)
+    return _run_shard(shard)
+
+
+def _run_shard(shard):
     acc = report.Acc(ID, replay, shard)
     tier = shard["tier"]
     if shard["kind"] == "single":
-        cfgs = [A.config(shard["ln"], shard["nn"], seed=shard["seed"])]
+        cfgs = [A.config(shard["ln"], shard["nn"], seed=shard["seed"], n_jobs=shard.get("n_jobs", 1))]
         lns = [shard["ln"]]
         grid = simrun.GRID
     elif shard["kind"] == "nonhood":
@@ -166,4 +179,8 @@ def run_shard(shard):
 
 
 def replay(w):
+    if any(c.get("n_jobs", 1) > 1 for c in w["cfgs"]):
+        from .. import sched
+        with sched.model():
+            return judge(w["cfgs"], w["lns"], w["dec"], w["rew"], w["X"], w["params"], None, bool(w.get("used"))) or []
     return judge(w["cfgs"], w["lns"], w["dec"], w["rew"], w["X"], w["params"], None, bool(w.get("used"))) or []
